@@ -87,7 +87,10 @@ def generate(st):
         cfg['keys_int'] = True
         cfg['n_days'] = min(cfg['n_days'], 3)
     pool = KEYPOOL_I if cfg['keys_int'] else KEYPOOL_S
-    if not cfg['keys_int'] and sw.random() < 0.25:
+    if not cfg['keys_int'] and sw.random() < 0.08:
+        pool = [1, 'a', 2, 'b', 3, 'c']          # ids that are partly numbers, partly strings: no order between them, but a join all the same
+        cfg['mixed_type_keys'] = True
+    elif not cfg['keys_int'] and sw.random() < 0.25:
         pool = ['MSFT', 'aapl', 'IBM', 'goog', 'Bp', 'b']       # tickers in mixed case: string order is case sensitive
         cfg['mixed_case_keys'] = True
 
@@ -552,7 +555,7 @@ def execute(trace, ctx=None):
                         ek = [tuple(kd[c] for c in on) for kd, _ in mrows]
                         if sorted(jk, key=repr) != sorted(ek, key=repr):
                             raise Violation('join-keys', 'join rows %s, expected keys %s' % (jk, ek), k)
-                        if not partial and jk not in [sorted(jk, key=lambda t: tuple(t[on.index(c)] for c in perm)) for perm in (list(on), sorted(on))]:
+                        if not partial and not cfg.get('mixed_type_keys') and jk not in [sorted(jk, key=lambda t: tuple(t[on.index(c)] for c in perm)) for perm in (list(on), sorted(on))]:
                             raise Violation('not-sorted', 'join rows are not sorted by key: %s' % jk, k)
                         want = {tuple(kd[c] for c in on): vals for kd, vals in mrows}
                         for r, kt in zip(jrows, jk):
@@ -766,8 +769,9 @@ def execute(trace, ctx=None):
                     raise Violation('duplicate-rows', 'result has duplicate keys %s' % got_keys, k)
                 raise Violation('join-keys', 'rows for keys %s: unexpected %s, missing %s' % (got_keys, extra, miss), k)
             # sorted by key: either lexicographic order of the key columns is accepted
-            orders = [] if partial else [sorted(got_keys, key=lambda t: tuple(t[on.index(c)] for c in perm)) for perm in (list(on), sorted(on))]     # by the keys in their given order; the library's alphabetical column order is accepted too
-            if not partial and got_keys not in orders:
+            unordered = bool(cfg.get('mixed_type_keys'))      # numbers and strings among the keys: "sorted" means nothing the statement fixes
+            orders = [] if (partial or unordered) else [sorted(got_keys, key=lambda t: tuple(t[on.index(c)] for c in perm)) for perm in (list(on), sorted(on))]     # by the keys in their given order; the library's alphabetical column order is accepted too
+            if not partial and not unordered and got_keys not in orders:
                 raise Violation('not-sorted', 'rows are not sorted by key: %s' % got_keys, k)
             if len(jdefaults) and any(nm in jdefaults and v[0] == 'table' for nm, v in minputs.items()):
                 res.probe('default-extends-or-fills')
